@@ -75,3 +75,21 @@ CASES += [
     dict(id='c02-eq-level-counter-sum-order', prop='C02', file=TA, expect=None,
          old="         const int          new_level = mDestVar.value() + 1;", new="         const int          new_level = 1 + mDestVar.value();"),
 ]
+
+CC2 = 'src/library/prog_args/detail/constraint_container.cpp'
+CASES += [
+    dict(id='c02-constraint-stored-as-required', prop='C02', file=CC2, expect='R*',
+         old="         mConstraints.addArgument( Data( constraint_type, created_by), search);", new="         mConstraints.addArgument( Data( Constraint::required, created_by), search);"),
+    dict(id='c02-identified-kinds-swapped', prop='C02', file=CC2, expect='R*',
+         old="      if (it->data().mConstraint == Constraint::required)\n      {\n         it = mConstraints.erase( it);\n      } else if (it->data().mConstraint == Constraint::excluded)",
+         new="      if (it->data().mConstraint == Constraint::excluded)\n      {\n         it = mConstraints.erase( it);\n      } else if (it->data().mConstraint == Constraint::required)"),
+    dict(id='c02-check-required-tests-excluded', prop='C02', file=CC2, expect='R*',
+         old="      if (current_constraint.data().mConstraint == Constraint::required)\n      {\n         \n         throw", new="      if (current_constraint.data().mConstraint == Constraint::excluded)\n      {\n         \n         throw"),
+    dict(id='c02-identified-searches-from-begin-once', prop='C02', file=CC2, expect='R*',
+         old="   while ((it = std::find( it, mConstraints.cend(), key)) != mConstraints.cend())", new="   if ((it = std::find( it, mConstraints.cend(), key)) != mConstraints.cend())"),
+]
+
+CASES += [
+    dict(id='c02-constraint-stored-before-validated', prop='C02', file=H, expect='R15',
+         old="   ihc->validated();\n\n   mGlobalConstraints.push_back( ihc);", new="   mGlobalConstraints.push_back( ihc);\n\n   if (!ihc->isValueConstraint())\n      ihc->validated();"),
+]
